@@ -50,6 +50,7 @@ type Req struct {
 	Keys   []string   `json:"keys"`  // injected keys besides "req"
 	Fail   string     `json:"fail"`  // "" | "boom" (panicking function) | "cond" (non-boolean condition)
 	NoRet  bool       `json:"noret"` // isolation sessions: no rule of this request returns a value
+	NoData bool       `json:"nodata"` // the request passes an empty data map (its rules then fail: nothing is injected)
 	// Trigger: this request performs the update from inside rule TrigRule
 	Trigger  *Update `json:"trigger"`
 	TrigRule string  `json:"trigrule"`
@@ -119,6 +120,7 @@ type drv struct {
 	mu      sync.Mutex
 	byGo    map[int64]int64 // goroutine -> request
 	spun    map[int64]bool
+	nspin   map[int64]int
 	reqs    map[int64]*Req
 	pool    *engine.GenginePool
 	sess    *Session
@@ -322,10 +324,13 @@ func (d *drv) hook(site string, a, b int64) {
 		g := goid()
 		d.mu.Lock()
 		q := d.byGo[g]
-		first := !d.spun[q]
 		d.spun[q] = true
+		d.nspin[q]++
+		n := d.nspin[q]
 		d.mu.Unlock()
-		if first {
+		// the first three iterations of a waiting request are logged (any two logged spins of one request have a complete
+		// look at both lists between them); more would keep the log busy and the gate controller waits for a quiet log
+		if n <= 3 {
 			d.o.Emit(obs.Event{"ev": "spin", "q": q})
 		}
 		if d.sess.GateHooks {
@@ -435,12 +440,18 @@ func (d *drv) request(r *Req, cv bool) {
 	if tn == nil {
 		tn = []string{"*"}
 	}
-	fl := r.Fail != "" || d.expectPeekFail(r)
+	if r.NoData {
+		keys = []string{}
+	}
+	fl := r.Fail != "" || d.expectPeekFail(r) || r.NoData
 	d.o.Emit(obs.Event{"ev": "arrive", "q": r.Q, "keys": keys, "names": tn, "fail": fl, "failmay": !fl && d.apiKeyMayBeGone(r),
 		"ord": d.orderOf(r.Method, r.Via)})
 	data := map[string]interface{}{"req": &Obj{Id: r.Q}}
 	for _, k := range r.Keys {
 		data[k] = &Obj{Id: r.Q}
+	}
+	if r.NoData {
+		data = map[string]interface{}{}
 	}
 	st := &engine.Stag{}
 	c := &dispatch.Call{Method: r.Method, Via: r.Via, B: r.B, N: r.N, M: r.M, Names: r.Names, Dag: r.Dag}
@@ -703,7 +714,7 @@ func runSession(s *Session, quiet time.Duration, seed int64) ([]obs.Event, bool)
 	all := []obs.Event{{"ev": "session", "id": s.ID}}
 	o := obs.New(s.Gated, quiet, seed+int64(s.ID)*271)
 	o.Silent = s.Silent
-	d := &drv{o: o, byGo: map[int64]int64{}, spun: map[int64]bool{}, reqs: map[int64]*Req{}, sess: s, trigged: map[int64]bool{},
+	d := &drv{o: o, byGo: map[int64]int64{}, spun: map[int64]bool{}, nspin: map[int64]int{}, reqs: map[int64]*Req{}, sess: s, trigged: map[int64]bool{},
 		manual: map[int64]chan struct{}{}, instOf: map[int64]int64{}, ended: map[int64]bool{}, byGoU: map[int64]int64{}}
 	D.Store(d)
 	text := versionText(s.Rules)
@@ -800,6 +811,36 @@ func runSession(s *Session, quiet time.Duration, seed int64) ([]obs.Event, bool)
 			case "starve":
 				d.gatePub = false
 				d.starve(st)
+			case "fill":
+				// "the pool can still serve M simultaneous requests": as many requests as the pool has instances are
+				// parked inside a rule, ALL of them must get there (no clock decides: if one never gets an instance the
+				// session watchdog ends the wait and the hang-reproduction rule decides), then they are let go
+				d.gatePub = false
+				d.mu.Lock()
+				for i := range st.Reqs {
+					d.manual[st.Reqs[i].Q] = make(chan struct{})
+				}
+				d.mu.Unlock()
+				atomic.StoreInt64(&d.entered, 0)
+				var fw sync.WaitGroup
+				for i := range st.Reqs {
+					fw.Add(1)
+					go func(r *Req) { defer fw.Done(); d.request(r, false) }(&st.Reqs[i])
+				}
+				for atomic.LoadInt64(&d.entered) < int64(len(st.Reqs)) && atomic.LoadInt64(&d.dead) == 0 {
+					time.Sleep(200 * time.Microsecond)
+				}
+				d.mu.Lock()
+				for q, ch := range d.manual {
+					select {
+					case <-ch:
+					default:
+						close(ch)
+					}
+					delete(d.manual, q)
+				}
+				d.mu.Unlock()
+				fw.Wait()
 			case "emstorm":
 				// the execution model is changed back and forth while two clients issue requests one after the other
 				d.gatePub = false
